@@ -2,5 +2,5 @@ From Coq Require Import Extraction ExtrOcamlBasic.
 From PV Require Import Lib.ExtBase C26.Generated C26.Spec C26.Model.
 Extraction "model.ml" ext_base_z ext_base_n ext_base_nat ext_base_res ext_base_list
   maskExtract maskModify hasNeededPermissions needsOwnerAndUserPassword rejectsEncrypted
-  handlePermissions validateOwnerPassword setupAccess checkForEncryption perm_lookup perm_table all_modes noCredentialsSupplied pw_empty
+  handlePermissions validateOwnerPassword setupAccess checkForEncryption perm_lookup perm_table all_modes noCredentialsSupplied pw_empty api_entry_mode_lists
   spec_kind spec_must_refuse row_satisfies.
